@@ -209,6 +209,23 @@ func c05Ops(v11 bool, withWrong bool) []c05Op {
 			x.validatedOK = false
 			return "lib=ok model=ok"
 		}},
+		c05Op{"TransferAsText", func(x *c05Pair) string {
+			// the same hop with the frame in its base64 text form (as gateways / JSON APIs carry it)
+			text, err := x.p.MarshalText()
+			if err != nil {
+				return "lib=err model=ok"
+			}
+			var q lorawan.PHYPayload
+			if err := q.UnmarshalText(text); err != nil {
+				return "lib=err model=ok"
+			}
+			x.p = &q
+			x.fcnt &= 0xFFFF
+			x.foptsCmds, x.frmCmds = false, false
+			x.receiver = true
+			x.validatedOK = false
+			return "lib=ok model=ok"
+		}},
 		c05Op{"SetFCnt32", func(x *c05Pair) string {
 			x.p.MACPayload.(*lorawan.MACPayload).FHDR.FCnt = x.init.frame.FCnt
 			x.fcnt = x.init.frame.FCnt
@@ -297,7 +314,7 @@ func runC05(r *engine.Run) {
 		r.HarnessError("%v", err)
 		return
 	}
-	r.Rule = "E2 + E1. Exchange histories: explicit-state BFS (depth 8 quick / 10 thorough, 14 operations incl. wrong-key / wrong-parameter variants) from all initial frames {no FOpts, 1 command, 15 bytes of commands} x {no payload, port 0 without payload, port-0 commands, 1/16/17/50 application bytes} x {up, down} x {1.0, 1.1} x {unconfirmed, confirmed+ACK}; operations: EncryptFRMPayload, EncryptFOpts (1.1), SetMIC, Transfer (MarshalBinary -> fresh UnmarshalBinary, counter drops to 16 bits), SetFCnt32, ValidateMIC, DecryptFOpts (1.1), DecryptFRMPayload; the explored object is the real frame paired with the abstract frame of the reference model (bytes of FOpts/FRMPayload, their form, MIC, current counter), stepped in lock-step: every operation's error/no-error, every Validate result (= carried MIC equals the specification MIC of the current content under the parameters used), the serialisation after every transition and the decoded command lists are compared; states whose content the model leaves unspecified (decrypting with the wrong key into a non-canonical command stream) are counted and not expanded. Tamper (E1): on the same frames, every single-bit flip of the serialised frame and every single-parameter mismatch (each of the 128 bits of each key, each of the 16 upper FCnt bits, ConfFCnt, txDR, txCh, MAC version, direction); the receiver either fails to decode or Validate answers carriedMIC == specification MIC of the received content under its parameters."
+	r.Rule = "E2 + E1. Exchange histories: explicit-state BFS (depth 8 quick / 10 thorough, 14 operations incl. wrong-key / wrong-parameter variants) from all initial frames {no FOpts, 1 command, 15 bytes of commands} x {no payload, port 0 without payload, port-0 commands, 1/16/17/50 application bytes} x {up, down} x {1.0, 1.1} x {unconfirmed, confirmed+ACK}; operations: EncryptFRMPayload, EncryptFOpts (1.1), SetMIC, Transfer (MarshalBinary -> fresh UnmarshalBinary, counter drops to 16 bits), TransferAsText (the same through MarshalText / UnmarshalText), SetFCnt32, ValidateMIC, DecryptFOpts (1.1), DecryptFRMPayload; the explored object is the real frame paired with the abstract frame of the reference model (bytes of FOpts/FRMPayload, their form, MIC, current counter), stepped in lock-step: every operation's error/no-error, every Validate result (= carried MIC equals the specification MIC of the current content under the parameters used), the serialisation after every transition and the decoded command lists are compared; states whose content the model leaves unspecified (decrypting with the wrong key into a non-canonical command stream) are counted and not expanded. Tamper (E1): on the same frames, every single-bit flip of the serialised frame and every single-parameter mismatch (each of the 128 bits of each key, each of the 16 upper FCnt bits, ConfFCnt, txDR, txCh, MAC version, direction); the receiver either fails to decode or Validate answers carriedMIC == specification MIC of the received content under its parameters."
 	frameHistory(r, 2)
 	cryptoHistory(r)
 	r.Assume("keys are fixed distinguishing values; single-bit walks over all key bits are part of the tamper enumeration; data independence for opaque bytes")
